@@ -384,6 +384,34 @@ static void world_race(bool emit, bool fifo, int variant) {
 	g_total_fail += W.nfail;
 }
 
+// Counter recovery (regression for: unsetID not refreshing the saved counters on the SECOND and later unsetID of a channel):
+// all parties enter channel "a" (and the nested "a"/"b"), exchange FIFO traffic, leave, come back with recoverID -- `rounds`
+// times, with broadcasts of every party in every visit; every broadcast must be delivered in order by everybody.
+static void world_recover(bool emit, size_t n, unsigned rounds, bool nested, int variant) {
+	int wid = g_world++;
+	if (!want_world(wid)) return;
+	reseed_lib(9000 + wid);
+	size_t t = (n - 1) / 3;
+	World W(wid, n, t, 0, std::vector<bool>(n, false), emit, true);
+	std::vector<std::string> pa(1, "a"), pab; pab.push_back("a"); pab.push_back("b");
+	std::vector<std::string> root;
+	for (unsigned r = 0; r < rounds; r++) {
+		const std::vector<std::string> &target = (nested && (r % 2 == 1)) ? pab : pa;
+		for (size_t p = 0; p < n; p++) W.goto_path(p, target, fifo_of_name);
+		for (size_t p = 0; p < n; p++) { W.do_broadcast(p, fresh_value()); if ((p + r) % 2 == 0) W.do_broadcast(p, fresh_value()); }
+		if (variant == 0) W.drain();
+		else { // leave part of the traffic in flight across the switch
+			for (size_t d = 0; d < n; d++) for (size_t s0 = 0; s0 < n; s0++) if (!W.q[s0][d].empty() && (s0 + d + r) % 3 != 0) W.do_deliver(d, (long)s0);
+		}
+		// a root-channel broadcast between the visits
+		for (size_t p = 0; p < n; p++) W.goto_path(p, root, fifo_of_name);
+		W.do_broadcast(r % n, fresh_value());
+		if (variant == 0) W.drain();
+	}
+	finish_world(W);
+	g_total_fail += W.nfail;
+}
+
 // ---- Byzantine behaviour ----------------------------------------------------------------------
 struct Byz {
 	World &W; SplitMix64 &r;
@@ -559,6 +587,9 @@ int main(int argc, char **argv) {
 	bool th = args.thorough();
 	// 1. the scripted races (always recorded for the model)
 	for (int fifo = 0; fifo < 2; fifo++) { world_race(true, fifo, 0); world_race(true, fifo, 1); }
+	// 1b. counter recovery after k-fold unsetID / recoverID (k = 2..4), flat and nested, drained and with traffic in flight
+	for (unsigned k = 2; k <= 4; k++) for (int nested = 0; nested < 2; nested++) for (int var = 0; var < 2; var++)
+		world_recover(true, (k == 3) ? 3 : 4, k, nested, var);
 	// 2. systematic interleavings for n = 4, t = 1
 	unsigned depth = th ? 5 : 4, width = 4;
 	unsigned long total = 1; for (unsigned k = 0; k < depth; k++) total *= width;
